@@ -566,6 +566,22 @@ def mem_pair_corpus():
     return out
 
 
+def access_pair_corpus():
+    """a storage access and an account access on the same operand, in both orders, inside stack traffic that leaves the back end room to
+    reorder them (the tool prices repeated accesses of one kind as warm; the two kinds keep separate books)"""
+    out = ["DUP1 SLOAD SWAP1 BALANCE SWAP2 PUSH1 0x40 MLOAD DUP1 SWAP2 SUB SWAP1"]
+    tails = ["PUSH1 0x40 MLOAD DUP1 SWAP2 SUB SWAP1", "DUP1 SWAP2 SUB SWAP1", "SWAP1 POP", "ADD", "DUP2 DUP2 SUB SWAP2 POP"]
+    for key in ("DUP1", "CALLER", "PUSH1 0x5"):
+        for sto in ("SLOAD", "DUP1 SWAP2 SSTORE"):
+            for acc in ("BALANCE", "EXTCODESIZE", "EXTCODEHASH"):
+                k2 = "SWAP1" if key == "DUP1" else key
+                for tail in tails:
+                    out.append("%s %s %s %s SWAP2 %s" % (key, sto, k2, acc, tail))
+                    out.append("%s %s %s %s SWAP2 %s" % (key, acc, k2, sto, tail))
+                    out.append("%s %s SWAP1 %s %s SWAP1 %s" % (key, sto, k2, acc, tail))
+    return out
+
+
 def forwarding_corpus():
     """a store followed by a load of the same place (the front end forwards the stored value), with the stored value still needed
     afterwards and a value computed between store and load that stays beneath the loaded one; constant and symbolic places"""
